@@ -23,6 +23,7 @@ mod checks;
 mod frontends;
 mod harvest;
 mod pool;
+mod small;
 mod spaces;
 mod sweep;
 mod util;
@@ -78,6 +79,30 @@ fn main() {
             let tier = args.get(3).and_then(|t| Tier::parse(t)).unwrap_or(Tier::Quick);
             let extra: Vec<String> = args.iter().skip(4).cloned().collect();
             std::process::exit(checks::worker(&job, tier, &extra));
+        }
+        "tokens" => {
+            // hv tokens <front-end> <text>   (debug aid)
+            use harper_core::parsers::Parser;
+            let fes = frontends::all();
+            let fe = frontends::by_name(&fes, &args[2]).expect("front-end");
+            let text = args[3].replace("\\n", "\n").replace("\\t", "\t");
+            let chars: Vec<char> = text.chars().collect();
+            let cur = harper_core::FstDictionary::curated();
+            let (p, d) = fe.prepare(&chars, &cur);
+            println!("raw:");
+            for t in p.parse(&chars) {
+                println!("  {:?} {:?} {:?}", t.span, sweep::kind_name(&t.kind), chars.get(t.span.start..t.span.end.min(chars.len())).map(|c| c.iter().collect::<String>()));
+            }
+            let doc = harper_core::Document::new(&text, &p, &d);
+            println!("doc:");
+            for t in doc.get_tokens() {
+                println!("  {:?} {:?} {:?}", t.span, sweep::kind_name(&t.kind), chars.get(t.span.start..t.span.end.min(chars.len())).map(|c| c.iter().collect::<String>()));
+            }
+            use harper_core::linting::Linter;
+            let mut g = sweep::all_on(harper_core::Dialect::American, cur.clone());
+            for l in g.lint(&doc) {
+                println!("lint: {}", sweep::lint_json(&l));
+            }
         }
         "sizes" => {
             let job = args.get(2).cloned().unwrap_or_default();
